@@ -358,6 +358,8 @@ def random_bag(rng, gene, gdesc, n):
         r = rng.random()
         src = keyed if (keyed and r < 0.5) else (fused if (fused and r < 0.65) else names)
         pool.append(rng.choice(src))
+    if dele and rng.random() < 0.15:
+        pool.append(dele)  # the whole-gene-deletion allele is a major allele too: it can be a called copy (e.g. `--cn 5`)
     muts = sorted(gene.mutations)
     core = [m for m in muts if gene.mutations[m][0] is not None]
     out = []
@@ -468,9 +470,19 @@ def run(ctx):
     for gd in gene_descs:
         gene = get_gene(gd)
         shipped_t = [list(t) for t in _genes[gd][1]]
-        for _ in range(per_gene):
-            n = rng.choice([0, 1, 1, 2, 2, 3, 3, 3, 4, 4, 4, 5, 5, 6, 6])
-            bag = random_bag(rng, gene, gd, n)
+        dele = gene.deletion_allele()
+        fixed = []
+        if dele:  # the deletion allele itself as a called copy: alone, twice, next to another allele
+            d1 = [dele, next(iter(gene.alleles[dele].minors)), [], []]
+            o = next(a for a in gene.alleles if a != dele)
+            fixed = [[d1], [d1, d1], [d1, [o, next(iter(gene.alleles[o].minors)), [], []]]]
+        for it in range(per_gene + len(fixed)):
+            if it < len(fixed):
+                bag = fixed[it]
+                n = len(bag)
+            else:
+                n = rng.choice([0, 1, 1, 2, 2, 3, 3, 3, 4, 4, 4, 5, 5, 6, 6])
+                bag = random_bag(rng, gene, gd, n)
             perms = list(itertools.permutations(range(n)))
             if len(perms) > maxperm:
                 perms = [perms[0]] + rng.sample(perms[1:], maxperm - 1)
